@@ -78,7 +78,13 @@ RECIPES = [
     ("C05", "break", ["C05-R1", "C05-R3"], "pyyeti/rainflow/py_rain.py", "            if X < Y:\n                break\n            if j == 2:\n                # /* step 5 from [1]: */\n                # /* [count Y as half cycle] */\n                n += 1\n                rf[n, 0] = Y / 2\n                rf[n, 1] = (pts[0] + pts[1]) / 2\n                rf[n, 2] = 0.5\n                pts[0]",
      "            if X <= Y:\n                break\n            if j == 2:\n                # /* step 5 from [1]: */\n                # /* [count Y as half cycle] */\n                n += 1\n                rf[n, 0] = Y / 2\n                rf[n, 1] = (pts[0] + pts[1]) / 2\n                rf[n, 2] = 0.5\n                pts[0]", "tie handling in _rainflow1"),
     ("C05", "break", ["C05-R1", "C05-R5"], "pyyeti/rainflow/c_rain.c", "          *os++ = cycle_index[j-2];\n          *os++ = cycle_index[j-1];", "          *os++ = cycle_index[j-2];\n          *os++ = cycle_index[j];", "C offsets"),
-    ("C05", "break", ["C05-R8"], "pyyeti/rainflow/py_rain.py", "    return rf[: L - fullcyclesp1]\n", "    return rf[: L - fullcyclesp1 + 1]\n", "returned slice"),
+    ("C05", "break", ["C05-R4"], "pyyeti/rainflow/py_rain.py", "    return rf[: L - fullcyclesp1]\n", "    return rf[: L - fullcyclesp1 + 1]\n", "returned slice"),
+    ("C05", "break", ["C05-R4"], "pyyeti/rainflow/py_rain.py", "    # not getting offsets:\n    pts = np.empty(L)\n    rf = np.empty((L - 1, 3))", "    # not getting offsets:\n    pts = np.empty(L)\n    rf = np.empty((L - 2, 3))", "output one row short"),
+    ("C05", "break", ["C05-R4"], "pyyeti/rainflow/c_rain.c", "    pts = calloc(L, sizeof(double));\n    if (pts == NULL) goto fail;", "    pts = calloc(L-1, sizeof(double));\n    if (pts == NULL) goto fail;", "C work buffer one short"),
+    ("C05", "break", ["C05-R4"], "pyyeti/rainflow/c_rain.c", "      PyObject* stop = PyLong_FromSsize_t(L-fullcyclesp1);\n      PyObject* slice = PySlice_New(NULL, stop, NULL);\n      srf = (PyArrayObject *)PyObject_GetItem((PyObject *)rf_array, slice);\n      Py_DECREF(stop);", "      PyObject* stop = PyLong_FromSsize_t(L-fullcyclesp1-1);\n      PyObject* slice = PySlice_New(NULL, stop, NULL);\n      srf = (PyArrayObject *)PyObject_GetItem((PyObject *)rf_array, slice);\n      Py_DECREF(stop);", "C returned slice"),
+    ("C05", "break", ["C05-R4"], "pyyeti/rainflow/c_rain.c", "    free(pts);\n\n#ifdef USE_FASTER_RAINFLOW_ROUTINE\n    if (fullcyclesp1 > 1) {", "    free(pts);\n\n#ifdef USE_FASTER_RAINFLOW_ROUTINE\n    if (fullcyclesp1 > 2) {", "C slice guard: one full cycle returns an unfilled row"),
+    ("C05", "break", ["C05-R4"], "pyyeti/rainflow/py_rain.py", "    os = np.empty((L - 1, 2), np.int64)", "    os = np.empty((L - 2, 2), np.int64)", "offsets one row short"),
+    ("C05", "neutral", [], "pyyeti/rainflow/py_rain.py", "    os = np.empty((L - 1, 2), np.int64)", "    os = np.empty((L, 2), np.int64)", "over-allocated output (sliced anyway)"),
     ("C05", "break", ["C05-R7"], "pyyeti/rainflow/py_rain.py", "    if L < 2:\n        raise ValueError", "    if L < 1:\n        raise ValueError", "length refusal"),
     ("C05", "neutral", [], "pyyeti/rainflow/py_rain.py", "        rf[n, 1] = (A + B) / 2\n        rf[n, 2] = 0.5\n        A = B\n\n    return rf[: L - fullcyclesp1]\n", "        rf[n, 1] = (B + A) / 2\n        rf[n, 2] = 0.5\n        A = B\n\n    return rf[: L - fullcyclesp1]\n", "commuted addition"),
     # ---- C06
